@@ -107,7 +107,7 @@ class CosimEngine(Engine):
                        'kill_mid_row', 'kill_in_step_token', 'kill_row_boundary', 'kill_in_loop_line', 'kill_in_perf_table',
                        'kill_in_banner', 'kill_lost_everything', 'error_exit', 'read_truncated_log', 'read_append_true_nonempty',
                        'read_append_false_nonempty', 'read_same_file_twice', 'short_read_source', 'buffered_source',
-                       'path_source', 'text_source', 'real_file_object_source', 'crlf_log', 'differential_source_kinds', 'flatten_first_checked',
+                       'path_source', 'text_source', 'real_file_object_source', 'crlf_log', 'io_error_read_raised', 'differential_source_kinds', 'flatten_first_checked',
                        'flatten_last_checked', 'flatten_all_checked', 'flatten_overlap_checked',
                        'flatten_indices', 'whitespace_only_echo_line', 'perf_new', 'perf_old', 'perf_none',
                        'block_without_rows', 'screen_output_read', 'logfile_read_by_run',
@@ -125,7 +125,7 @@ class CosimEngine(Engine):
             'disjoint; a restart starts on a step the surviving log printed (same lattice) or beyond everything it printed; one '
             'block in ten resets the timestep (then only flatten("all") is checked). read / new: Log.read or Log() on any file '
             'of the directory or on a log synthesised elsewhere, append True/False, given as text, bytes, path string, pathlib.Path, BytesIO, raw '
-            'short-read stream, buffered stream, open file or open unbuffered file; one log in ten has CRLF line ends; flatten: style first/last/all with random firstindex/lastindex. One run in five has no '
+            'short-read stream, buffered stream, open file or open unbuffered file; one log in ten has CRLF line ends; three short-read streams in ten have a bad byte that raises EIO (always or once): the read may fail, the Log must then hold its old records plus at most a correct prefix of the new ones; flatten: style first/last/all with random firstindex/lastindex. One run in five has no '
             'kill or error. Not generated: warnings between thermo rows, multi-partition logs, yaml/multi thermo output, '
             'unbalanced quotes, duplicate column names, directories with foreign log-N files. Non-trivial run: a fault fired or '
             '>= 2 state-changing operations. distinct = distinct (files, blocks per file, kill class, reader kind, append '
@@ -289,6 +289,9 @@ class CosimEngine(Engine):
         src['kind'] = r.choice(SOURCE_KINDS)
         src['chunks'] = [r.choice([1, 2, 3, 7, 16, 64, 100, 1000, 4096]) for _ in range(r.randint(1, 4))]
         src['bufsize'] = r.choice([1, 8, 64, 512, 8192])
+        if src['kind'] in ('chunked', 'buffered') and not st['cfg']['fault_free'] and r.random() < 0.3:
+            # a bad sector under the reader: delivering one particular byte raises EIO (every time, or only the first time)
+            src['ioerr'] = {'u': r.random(), 'once': r.random() < 0.3}
         return src
 
     def gen(self, ctx, st):
@@ -431,8 +434,13 @@ class CosimEngine(Engine):
             obj, closer, stream = streams.make_source('bytesio', text, st['scratch'], 'x')
             kind = 'bytesio'
         else:
+            fail_at = None
+            if src.get('ioerr') and kind in ('chunked', 'buffered') and len(data) > 0:
+                fail_at = min(len(data) - 1, int(src['ioerr']['u'] * len(data)))
             obj, closer, stream = streams.make_source(kind, text, st['scratch'], 'ext-%d.log' % st['nsynth'],
-                                                      chunks=src['chunks'], bufsize=src['bufsize'])
+                                                      chunks=src['chunks'], bufsize=src['bufsize'], fail_at=fail_at,
+                                                      fail_once=bool(src.get('ioerr') and src['ioerr'].get('once')))
+            st['last_stream'] = stream
         if kind == 'path':
             ctx.probe('path_source')
             if src['from'] != 'file':
@@ -556,6 +564,18 @@ class CosimEngine(Engine):
                     raise Violation('C19.I4', {'what': 'version date', 'version': obs, 'expected': str(d),
                                                'observed': str(log.lammps_date), 'where': where}, klass='version/date')
 
+    def _check_log_failed(self, ctx, log, model, where):
+        # after a failed read the version may or may not have been taken from the new banner
+        seen = [v for v in model.versions if v is not None]
+        obs = log.lammps_version
+        saved = model.torn_banner
+        if obs is None or obs in seen:
+            model.torn_banner = True          # the version clause was just evaluated here; skip it in _check_log
+        try:
+            self._check_log(ctx, log, model, where)
+        finally:
+            model.torn_banner = saved
+
     def _check_dir(self, ctx, st, where):
         have = sorted(f for f in os.listdir('.') if not f.startswith('in.') and not f.startswith('ext-'))
         want = sorted(st['files'])
@@ -678,6 +698,7 @@ class CosimEngine(Engine):
         if data is None:
             return False
         st['last_data'] = data
+        st['last_stream'] = None
         obj, closer, kind = self._make_source(ctx, st, src, data)
         text = data.decode('utf-8')
         try:
@@ -693,6 +714,50 @@ class CosimEngine(Engine):
             except Exception:       # noqa: BLE001
                 pass
         trunc = bool(text) and not text.endswith('\n')
+        raw = st.get('last_stream')
+        io_fired = raw is not None and getattr(raw, 'io_errors', 0) > 0
+        if io_fired:
+            ctx.fault('io_error_under_reader')
+            ctx.probe('io_error_read_' + ('raised' if not ok else 'completed'))
+        if io_fired and not ok:
+            # a failed read may leave nothing or a correct prefix of the new runs behind; it never disturbs the
+            # records that were there, and never leaves wrong data
+            if ctor:
+                return False
+            if not append:
+                model.reset()
+            try:
+                newp = lm.parse(text, src=tag)
+            except ValueError as e:
+                raise HarnessError('generator produced a log the model cannot read: %s' % e)
+            before = list(model.blocks)
+            lastv = None
+            for k in range(len(newp['blocks']), -1, -1):
+                model.blocks = before + newp['blocks'][:k]
+                vers = list(model.versions)
+                model.versions = vers + [newp['version']] + ([None] if not vers else [])
+                tb = model.torn_banner
+                model.torn_banner = tb or newp['banner_torn']
+                try:
+                    self._check_log_failed(ctx, log, model, 'after a read that failed with EIO')
+                    lastv = None
+                    # the banner of the failed read counts as read only if the Log actually took it
+                    took = log.lammps_version is not None and log.lammps_version == newp['version'] and log.lammps_version not in vers
+                    model.versions = vers + ([newp['version']] if took else [])
+                    break
+                except Violation as v:
+                    lastv = lastv or v
+                    model.versions = vers
+                    model.torn_banner = tb
+            if lastv is not None:
+                raise Violation('C19.F', dict(lastv.detail, what='after a read that failed with an I/O error the Log holds neither its '
+                                              'old records nor old records plus a correct prefix of the new ones',
+                                              first_mismatch=lastv.detail.get('what')), klass='ioerr/' + lastv.klass)
+            model.reads += 1
+            ctx.ev('op', 'read-failed', {'kind': kind, 'append': append, 'bytes': len(data)}, {'nsims': len(log.simulations)})
+            ctx.changes += 1
+            ctx.sig('read-failed', kind, append, len(model.blocks))
+            return log
         if not ok:
             raise Violation('C19.R', {'what': 'reading a log raised', 'source_kind': kind, 'append': append, 'truncated': trunc,
                                       'exception': type(out).__name__, 'message': str(out)[:300], 'bytes': len(data),
@@ -737,7 +802,7 @@ class CosimEngine(Engine):
         tag = op['src'].get('name') or 'synth-%d' % st['nsynth']
         if self._read_into(ctx, st, log, model, op['src'], op['append'], tag) is False:
             return
-        if op.get('diff'):
+        if op.get('diff') and not (st.get('last_stream') is not None and getattr(st['last_stream'], 'io_errors', 0) > 0):
             # the same bytes through another source kind must give bit-identical tables
             data = st['last_data']
             ref = ctx.must('C19.R', lmp.Log, io.BytesIO(data), klass='read/bytesio-ref')
